@@ -732,9 +732,20 @@ for _method, _step in (('validate_pre_sds_if_applicable', 'pre'), ('validate_pos
 
 # ----- the arguments of instructions
 
+class FileMakerI(Interface):
+    """FileMaker.make__translate_hard_error (C15): makes the file; a HardErrorException of the making is returned
+    as a message"""
+    methods = {'make__translate_hard_error': Method(returns=Opt(Any_), may_raise=(_mk_arbitrary,), event='make-file')}
+
+
+class FileMakerAdvI(Interface):
+    methods = {'primitive': Method(returns=Iface(FileMakerI), may_raise=(_mk_arbitrary,), event='to-primitive')}
+
+
 class DdvWithValidatorI(Interface):
     """a DDV (of a path check, file maker, string source, file matcher ...) as far as validation is concerned"""
     attrs = {'validator': Iface(ValidatorI)}
+    methods = {'value_of_any_dependency': Method(returns=Iface(FileMakerAdvI), may_raise=(_mk_arbitrary,), event='to-adv')}
 
 
 class SdvOfDdvWithValidatorI(Interface):
@@ -763,7 +774,8 @@ class PurePathI(Interface):
 
 class PathDdvOfDstI(Interface):
     methods = {'path_suffix': Method(returns=Iface(PathSuffixI)), 'path_suffix_path': Method(returns=Iface(PurePathI)),
-               'describer': Method(returns=Any_)}
+               'describer': Method(returns=Any_),
+               'value_of_any_dependency__d': Method(returns=Any_, may_raise=(_mk_arbitrary,), event='path-value')}
 
 
 class PathSdvI(Interface):
@@ -942,9 +954,16 @@ def harness_timeout_validate_pre_sds(value, environment):
 
 
 M.contract(HARNESS + 'harness_timeout_validate_pre_sds',
-           params=dict(value=Iface(SdvOfDdvWithValidatorMethodI), environment=Iface(PreSdsInstructionEnvI)),
-           returns=SVH, setup=lambda interp, args, ghosts: {'arg': args['value']}, ghosts=dict(arg=Any_),
-           ensures=dict(_ONE_ARG_M), raises={ArbitraryException: {}}, raises_only=())
+           params=dict(value=Opt(Iface(SdvOfDdvWithValidatorMethodI)), environment=Iface(PreSdsInstructionEnvI)),
+           returns=SVH,
+           ensures={
+               'the argument is validated: as resolved with the symbols of the environment, on its home directories':
+                   lambda value, environment, trace:
+                   (trace == []) if value is None else _validates_exactly_m(value, environment, trace),      # (`timeout = none`)
+               'VALIDATION_ERROR iff it reports an error, with its message': lambda result, trace:
+               verdict_of(result, trace),
+               'nothing else: no main step, no effect': lambda trace: quiet(trace) and no_post_sds_validation(trace),
+           }, raises={ArbitraryException: {}}, raises_only=())
 
 
 def harness_env_validate_pre_sds(phases, modifier, environment):
@@ -1409,3 +1428,103 @@ M.contract(HARNESS + 'harness_define_symbol_validate_pre_sds',
            ensures={'success; in particular the symbol is not put into a table': lambda result, trace:
            svh_kind(result) is None and trace == []},
            raises_only=())
+
+
+# ----- SequenceOfCooperativeAssertionParts.check: the parts in order, none skipped, none after one that does not pass
+# (ghost monitor as for the conjunctions of validators in C03_validation; the threading of the value from part to
+# part is not stated: values are opaque and have no identity the verifier could follow through the loop)
+from pyvc.interp import PyRaise as _PyRaise
+from pyvc.values import wrap as _wrap
+
+
+def monitor_accepts_check(ghost, idx):
+    return (not ghost['stopped']) and idx == ghost['last_part'] + 1
+
+
+def _part_check_model(interp, self, args, kwargs):
+    st = interp.st
+    fn = interp.current_function_name()
+    g = st.ghost
+    if 'parts' in g:
+        idx = getattr(self, '_pv_index', ())
+        if len(idx) != 1 or not self._pv_uid.startswith(g['parts'].uid + '[]'):
+            st.oblige(fn + ' : monitor[only parts of the sequence are checked]', False, {'kind': 'monitor'})
+            raise _PyRaise(AssertionError('monitor'))
+        ok = interp.truth(interp.call(monitor_accepts_check, [g, _wrap(idx[0])], {}))
+        st.oblige(fn + ' : monitor[parts in order, none skipped, none after one that does not pass]', ok,
+                  {'kind': 'monitor'})
+        st.assume(ok)
+        g['last_part'] = _wrap(idx[0])
+    st.emit('part-check', self, tuple(args))
+    k = st.choose(4)
+    if k == 0:
+        r = Any_.make(interp, 'checked_value')
+        st.emit('part-check:returned', self, r)
+        return r
+    g['stopped'] = True
+    exc = (_mk_pfh_exception(interp, None) if k == 1 else c01._mk_hard_error(interp, None) if k == 2
+           else ArbitraryException())
+    st.emit('part-check:raised', self, exc)
+    raise _PyRaise(exc)
+
+
+class SequencedPartI(Interface):
+    target_class = ap.AssertionPart
+    methods = {'check': Method(model=_part_check_model)}
+
+
+def _sequence_start(interp, args, ghosts):
+    g = interp.st.ghost
+    g['parts'] = args['self']._assertion_parts
+    g['last_part'] = -1
+    g['stopped'] = False
+    return None
+
+
+M.contract(P_AP + ':SequenceOfCooperativeAssertionParts.check',
+           params=dict(self=Inst(ap.SequenceOfCooperativeAssertionParts, _validator=Any_, _references=Any_,
+                                 _assertion_parts=ListOf(Iface(SequencedPartI))),
+                       environment=Any_, os_services=Any_, value_to_check=Any_),
+           setup=_sequence_start,
+           ensures={'returns when every part has been checked and passed': lambda self, ghost:
+           (not ghost['stopped']) and ghost['last_part'] == len(self._assertion_parts) - 1},
+           raises={pfh_exception.PfhException: {'ensures': lambda exc, trace:
+           [e[2] for e in trace if e[0] == 'part-check:raised'] == [exc]},
+                   HardErrorException: {'ensures': lambda exc, trace:
+                   [e[2] for e in trace if e[0] == 'part-check:raised'] == [exc]},
+                   ArbitraryException: {'ensures': lambda exc, trace:
+                   [e[2] for e in trace if e[0] == 'part-check:raised'] == [exc]}},
+           raises_only=())
+M.loop(P_AP + ':SequenceOfCooperativeAssertionParts.check', 0,
+       invariant=lambda _i, ghost: (not ghost['stopped']) and ghost['last_part'] == _i - 1,
+       modifies={'assertion_part': 'local', 'value_to_check': Any_, 'ghost:last_part': Int})
+
+
+# ----- main of `file` / `dir`: exactly one file is made -- by the file maker given, at the path given, both as resolved
+# with the symbols and directories of the environment; its message (a HardErrorException of the making included:
+# C15 `make__translate_hard_error`) is the result; nothing escapes but what the opaque parts raise
+
+for _q, _cls, _path_attr, _fields in (
+        ('multi_phase.new_file:_TheInstructionEmbryo', new_file._TheInstructionEmbryo, '_path_to_create',
+         dict(_validator=Any_)),
+        ('multi_phase.new_dir:TheInstructionEmbryo', new_dir.TheInstructionEmbryo, '_dir_path_sdv',
+         dict(_references=Any_))):
+    M.contract(P_I + _q + '.main',
+               params=dict(self=Inst(_cls, _file_maker=Iface(SdvOfDdvWithValidatorI),
+                                     **dict(_fields, **{_path_attr: Iface(PathSdvI)})),
+                           environment=Iface(PostSdsInstructionEnvI), settings=Any_, os_services=Any_),
+               ghosts=dict(path_attr=Const(_path_attr)), returns=Opt(Any_),
+               ensures={
+                   'one file is made: by the file maker, at the path -- both as resolved with the symbols and '
+                   'directories of the environment': lambda self, environment, path_attr, trace:
+                   resolutions(trace) == [('resolve-path', getattr(self, path_attr), (environment.symbols,)),
+                                          ('resolve-arg', self._file_maker, (environment.symbols,))]
+                   and [(e[1], e[2]) for e in trace if e[0] == 'make-file']
+                   == [(outcome_event(trace, 'to-primitive')[1], (outcome_event(trace, 'path-value')[1],))]
+                   and [e[2] for e in trace if e[0] in ('path-value', 'to-adv')] == [(environment.tcds,)] * 2,
+                   'its message, if any, is the result; no validation, no other effect': lambda result, trace:
+                   result is outcome_event(trace, 'make-file')[1] and steps(trace) == [] and quiet(trace),
+               },
+               raises={ArbitraryException: {'ensures': lambda exc, trace:
+               [e[2] for e in trace if e[0].endswith(':raised')] == [exc]}},
+               raises_only=())
